@@ -263,6 +263,11 @@ func runRepro(name, dir string) {
 			os.Exit(ev.ExitBroken)
 		}
 		answers[index] = showAll(got)
+		if os.Getenv("C14_REPRO_DATA") != "" {
+			for _, id := range rc.shards {
+				fmt.Printf("  %s shard %d data series: %q\n", index, id, showAll(sortedKeys(e.DataSeries(id))))
+			}
+		}
 		e.Close()
 	}
 	r.Eval(1)
